@@ -264,7 +264,8 @@ def part_settings(ctx):
     imports = ("From Verif Require Import C18.SettingsModel.\n"
                "Definition obsets := [[None;None;None;None;None]; [Some true;Some false;None;Some true;Some false];"
                " [Some false;Some true;Some true;None;Some true]; [None;Some true;Some false;Some false;None];"
-               " [Some true;Some true;Some true;Some true;Some true]; [Some false;None;Some false;Some true;Some false]]"
+               + (" [Some true;Some true;Some true;Some true;Some true]; [Some false;None;Some false;Some true;Some false]]"
+                  if ctx.tier == "thorough" else " [Some true;Some true;Some true;Some true;Some true]]") +
                " : list (list (option bool)).\n"
                "Definition nthb (l : list (option bool)) n := nth n l None.\n"
                "Definition settings_for cv o : list settings :=\n"
@@ -426,7 +427,8 @@ def part_histories(ctx, root):
             j3.append(job(p, c, FORMATS))
     sessions.append(("s3", rnd.randrange(1, 2 ** 32), j3))
     # S4: every format requested alone (fresh CompilerData each), seed 3
-    sessions.append(("s4", 3, [job(p, c, [f]) for p in progs for c in cfgs for f in FORMATS]))
+    s4progs = progs if ctx.tier == "thorough" else ["token", "exports", "iface_json", "structs", "many_internal"]
+    sessions.append(("s4", 3, [job(p, c, [f]) for p in s4progs for c in cfgs for f in FORMATS]))
     # S5/S6: the EVM target varies between compilations inside one process, in opposite orders: anything cached per
     # process from the first target compiled (e.g. the re-entrancy lock location) shows as a difference
     evs = ["prague", "shanghai", "cancun", "london"]
